@@ -8,6 +8,7 @@
 -/
 import YarlModel
 import YarlProofs.Lemmas.StrTotal
+import YarlProofs.Lemmas.BuildFix
 import YarlProofs.C11
 set_option linter.unusedSimpArgs false
 namespace Yarl
@@ -397,10 +398,13 @@ theorem C19_join_str_total (e : Env) (base ref : Url) (hb : LazyOK e base) (hr :
 
 namespace StrTotal
 
-/-- the netloc computation of `build(..., encoded=False)`, verbatim -/
+/-- the netloc computation of `build(..., encoded=False)`, verbatim.  `a` is the argument record AFTER
+    the scheme was lowered (fix e21485a: see `build_netloc`); the NFKC screen of a non-ASCII authority
+    is part of it (fix c2c2803) -/
 def buildNetloc (e : Env) (a : BuildArgs) : R Str :=
   let port : Option Nat := a.port.map Int.toNat
   (if !a.authority.isEmpty then do
+    if !isAscii a.authority then checkNetloc e.o a.authority
     let np ← splitNetloc e.o a.authority
     let h1 ← (match np.host with
       | some h => encodeHost e.o h false
@@ -423,8 +427,11 @@ def buildNetloc (e : Env) (a : BuildArgs) : R Str :=
     else pure (makeNetloc (q e Gen.QUOTER) a.user a.password (some h) port true)
   else pure [] : R Str)
 
+/-- `build(..., encoded=False)`: the scheme is lowered first (`sc`, fix e21485a), the stored scheme is `sc`,
+    and the netloc is computed from the arguments with the lowered scheme -/
 theorem build_netloc (e : Env) (a : BuildArgs) (u : Url) (henc : a.encoded = false) (h : build e a = .ok u) :
-    buildNetloc e a = .ok u.netloc ∧ (∀ p, a.port.map Int.toNat = some p → p ≤ 65535) := by
+    ∃ sc, lowerAny e a.scheme = .ok sc ∧ u.scheme = sc ∧
+      buildNetloc e { a with scheme := sc } = .ok u.netloc ∧ (∀ p, a.port.map Int.toNat = some p → p ≤ 65535) := by
   unfold build at h
   obtain ⟨_, h⟩ := ite_err_ok h
   obtain ⟨_, h⟩ := ite_err_ok h
@@ -434,10 +441,11 @@ theorem build_netloc (e : Env) (a : BuildArgs) (u : Url) (henc : a.encoded = fal
   obtain ⟨qs, _, h⟩ := bind_ok h
   rw [henc] at h
   rw [if_neg (by decide)] at h
+  obtain ⟨sc, hsc, h⟩ := bind_ok h
   obtain ⟨netloc, hnl, h⟩ := bind_ok h
   obtain ⟨path, _, h⟩ := bind_ok h
   cases h
-  refine ⟨hnl, ?_⟩
+  refine ⟨sc, hsc, rfl, hnl, ?_⟩
   intro p hp
   cases hport : a.port with
   | none => rw [hport] at hp; cases hp
@@ -529,14 +537,15 @@ theorem build_authority_core (e : Env) (a : BuildArgs) (u : Url) (henc : a.encod
       Writable (rebracket (mem 91 (rpartition 64 a.authority).2.2) h1)) :
     build e a = .ok u → StrOK e u := by
   intro hb
-  obtain ⟨hnl, _⟩ := build_netloc e a u henc hb
+  obtain ⟨sc, _, _, hnl, _⟩ := build_netloc e a u henc hb
   apply strOK_of_splits
   unfold buildNetloc at hnl
   have hne : a.authority.isEmpty = false := isEmpty_false_of_ne hauth
   simp only [hne, Bool.not_false, if_true] at hnl
+  replace hnl := (BuildFix.screen_ok hnl).1   -- the NFKC screen passed (fix c2c2803)
   obtain ⟨np, hnp, hnl⟩ := bind_ok hnl
   obtain ⟨h1, hh, hnl⟩ := bind_ok hnl
-  have hp' := normPort_le np.port a.scheme (fun p hp => splitNetloc_port_range e.o a.authority np p hnp hp)
+  have hp' := normPort_le np.port sc (fun p hp => splitNetloc_port_range e.o a.authority np p hnp hp)
   exact splits_build_forms_written e np.user np.password _ _ u.netloc hnl (hw np h1 hnp hh) hp'
 
 end StrTotal
@@ -547,14 +556,14 @@ end StrTotal
 theorem C19_build_str_total (e : Env) (a : BuildArgs) (u : Url) (henc : a.encoded = false)
     (hauth : a.authority = []) : build e a = .ok u → StrOK e u := by
   intro hb
-  obtain ⟨hnl, hport⟩ := build_netloc e a u henc hb
+  obtain ⟨sc, _, _, hnl, hport⟩ := build_netloc e a u henc hb
   apply strOK_of_splits
   unfold buildNetloc at hnl
   simp only [hauth, List.isEmpty_nil, Bool.not_true, Bool.false_eq_true, if_false] at hnl
   split at hnl
   · obtain ⟨eh, heh, hnl⟩ := bind_ok hnl
     obtain ⟨r, hr, hshape⟩ := encoded_host_shape e.o a.host eh heh
-    have hp' := normPort_le (a.port.map Int.toNat) a.scheme hport
+    have hp' := normPort_le (a.port.map Int.toNat) sc hport
     rw [hr] at hnl
     exact splits_build_forms e a.user a.password r _ u.netloc hnl hshape hp'
   · rw [← Except.ok.inj hnl]
